@@ -25,6 +25,20 @@ ever be consulted for them; ``P.ANY`` / negations match per their definition; wh
 request the facade must raise ``ProviderNotFoundError`` (three-valued: a nested retort that cannot serve is
 unspecified).
 
+Self-referential request types (``Node(a: int, nxt: Optional[Node])``, ``List[Node]``; probe data three levels
+deep): the reference unrolls the cycle as deep as the data go, so a chaining entry that matches the recursive field /
+the model must be composed exactly once at EVERY nesting level.  Locations at or below the point where the cycle comes
+round may be answered by the request in progress (no provider is consulted again): they may be missing from the real
+log; a request that was sent for them must show the reference's sequence.
+
+``derived`` cases: retort A is placed in a holder's recipe and / or used first, then B = A.extend(...) /
+A.replace(...) is placed in a fresh holder (or used directly): B serves from its own recipe and options, whatever
+has been done with A.
+
+Request ``MW`` (fields typed ``NewType('N', int)`` / ``Annotated[int, 'm']``): the wrappers are transparent for the
+reference (one resolution of the field location; ``int`` predicates match it).  Two open findings live there; a
+transcription of adaptix's two-step lookup gives a mismatch that it explains exactly its own kind.
+
 A second interpreter (``defect model``) transcribes one *known* defect (see notes/C09.md); it is used only to
 (a) give violations that it explains exactly their own narrow signature and (b) let the generators avoid the
 affected class while the finding is open.  It never relaxes the oracle.
@@ -36,7 +50,7 @@ import itertools
 import numbers
 import os
 from dataclasses import dataclass
-from typing import ForwardRef, List, Literal, Optional, Union
+from typing import Annotated, ForwardRef, List, Literal, NewType, Optional, Union
 
 from vkit import env, runner
 from vkit.errors import describe, exc_site
@@ -61,6 +75,9 @@ from adaptix.load_error import AggregateLoadError, LoadError  # noqa: E402
 
 PROP = "C09"
 KNOWN_ID = "C09-stale-single-origin-combo"
+# open findings on fields typed NewType / Annotated (two-step lookup of wrapped field types), see notes section 10
+KNOWN_TWICE_ID = "C09-chain-twice-through-unwrapping"
+KNOWN_DEFER_ID = "C09-wrapper-defers-type-predicates"
 BASE = 64
 DEBUG = [DebugTrail.DISABLE, DebugTrail.FIRST, DebugTrail.ALL]
 KINDS = ("plain", "first", "last", "decline", "pass")
@@ -72,6 +89,24 @@ class M:
     b: int
 
 
+@dataclass
+class Node:  # self-referential: the cycle Node -> nxt: Optional[Node] -> Node
+    a: int
+    nxt: Optional[Node]
+
+
+N = NewType("N", int)
+ANN = Annotated[int, "m"]
+
+
+@dataclass
+class MW:  # the twin of M whose field types are wrapped: NewType / Annotated are documented to be transparent
+    a: N
+    b: Annotated[int, "m"]
+
+
+NODE_LEVELS = 3  # nesting depth of the recursive probe data == how far the reference unrolls the cycle
+
 # ----------------------------------------------------------------------------------- location stacks (pure data)
 # a location is (kind, type name, extra): ("T", "int", None) | ("F", "int", "a") | ("G", "int", 0)
 _FR = ForwardRef("Missing")
@@ -81,11 +116,16 @@ _FR = ForwardRef("Missing")
 UNNORMALISABLE = {"FR": _FR, "List[FR]": List[_FR], "bare Literal": Literal, "bare Union": Union, "object 5": 5,
                   "list['Missing']": list["Missing"]}
 REQ_TYPES = {"int": int, "M": M, "List[int]": List[int], "Optional[int]": Optional[int], "None": None,
-             **UNNORMALISABLE}
-TYPE_NAME = {v: k for k, v in REQ_TYPES.items()}
+             "Node": Node, "List[Node]": List[Node], "MW": MW, **UNNORMALISABLE}
+# types that only occur below a request: the recursive field and the two wrapped field types (wrapper level)
+TYPE_NAME = {**{v: k for k, v in REQ_TYPES.items()}, Optional[Node]: "Optional[Node]", N: "N", ANN: "Ann"}
 ORIGIN_OF_TYPE = {"int": "int", "M": "M", "List[int]": "list", "Optional[int]": "Union", "None": "None",
-                  **{k: "<no origin>" for k in UNNORMALISABLE}}
+                  "Node": "Node", "List[Node]": "list", "Optional[Node]": "Union", "MW": "MW", "N": "N",
+                  "Ann": "Annotated", **{k: "<no origin>" for k in UNNORMALISABLE}}
 REQS = ("int", "M", "List[int]", "Optional[int]", "FR", "List[FR]")  # enumerated; the others: fixed + sampled
+REC_REQS = ("Node", "List[Node]")  # self-referential request types (own enumeration, own log rule)
+WRAPPED = {"N": "newtype", "Ann": "annotated"}  # wrapper-level type names of MW's fields
+LISTS = ("List[int]", "List[Node]")
 
 
 def _lt(stack):
@@ -98,6 +138,10 @@ def _is_field(stack, *ids):
 
 def _in_m_a(stack):
     return len(stack) >= 2 and _is_field(stack, "a") and stack[-2][1] == "M"
+
+
+def _field_of(stack, owner, fid):
+    return len(stack) >= 2 and _is_field(stack, fid) and stack[-2][1] == owner
 
 
 # name -> (factory of the adaptix predicate, exact origin name or None, reference predicate on a stack)
@@ -113,14 +157,21 @@ PREDS = {
     "bool": (lambda: bool, "bool", lambda s: False),
     "None": (lambda: None, "None", lambda s: _lt(s) == "None"),
     "M": (lambda: M, "M", lambda s: _lt(s) == "M"),
-    "list": (lambda: list, "list", lambda s: _lt(s) == "List[int]"),
+    "Node": (lambda: Node, "Node", lambda s: _lt(s) == "Node"),
+    "MW": (lambda: MW, "MW", lambda s: _lt(s) == "MW"),
+    "list": (lambda: list, "list", lambda s: _lt(s) in LISTS),
     "P[int]": (lambda: P[int], "int", lambda s: _lt(s) == "int"),
     "List[int]": (lambda: List[int], None, lambda s: _lt(s) == "List[int]"),
     "Optional[int]": (lambda: Optional[int], None, lambda s: _lt(s) == "Optional[int]"),
     "Integral": (lambda: numbers.Integral, None, lambda s: _lt(s) == "int"),
-    "Sequence": (lambda: collections.abc.Sequence, None, lambda s: _lt(s) == "List[int]"),
+    "Sequence": (lambda: collections.abc.Sequence, None, lambda s: _lt(s) in LISTS),
+    "Optional[Node]": (lambda: Optional[Node], None, lambda s: _lt(s) == "Optional[Node]"),
     "a": (lambda: "a", None, lambda s: _is_field(s, "a")),
     "b": (lambda: "b", None, lambda s: _is_field(s, "b")),
+    "nxt": (lambda: "nxt", None, lambda s: _is_field(s, "nxt")),
+    "P[Node].nxt": (lambda: P[Node].nxt, None, lambda s: _field_of(s, "Node", "nxt")),
+    "P[Node].a": (lambda: P[Node].a, None, lambda s: _field_of(s, "Node", "a")),
+    "P[MW].a": (lambda: P[MW].a, None, lambda s: _field_of(s, "MW", "a")),
     "[ab]": (lambda: "[ab]", None, lambda s: _is_field(s, "a", "b")),
     "P[M].a": (lambda: P[M].a, None, _in_m_a),
     "~P[M].a": (lambda: ~P[M].a, None, lambda s: not _in_m_a(s)),
@@ -144,6 +195,15 @@ RELEVANT = {
                   "~P[int]", "Integral"),
     "Optional[int]": ("Optional[int]", "P.ANY", "~P[M].a", "int", "P[int]", "Integral", "~P[int]", "P[int,str]"),
     "None": ("None", "P.ANY", "~P[M].a", "~P[int]"),
+    # every predicate below looks at the last two locations only, so it gives the same verdict at every nesting level
+    # of the cycle: the unrolled reading ("each location is resolved by first match") and adaptix's reading (the inner
+    # request is answered by the request in progress) cannot differ
+    "Node": ("Node", "nxt", "P[Node].nxt", "Optional[Node]", "a", "P[Node].a", "[ab]", "int", "P[int]", "Integral",
+             "P.ANY", "~P[M].a", "~P[int]", "P[int,str]", "and(int,ANY)"),
+    "List[Node]": ("Node", "nxt", "P[Node].nxt", "Optional[Node]", "a", "P[Node].a", "int", "P[int]", "Integral",
+                   "P.ANY", "~P[M].a", "~P[int]", "list", "Sequence"),
+    "MW": ("MW", "a", "b", "[ab]", "P[MW].a", "P.ANY", "~P[M].a", "int", "P[int]", "Integral", "P[int,str]",
+           "and(int,ANY)"),
     # exact-class predicates never match these; None / str / int are listed so that None-keyed tables are built
     **{k: ("None", "str", "int", "P.ANY", "~P[M].a", "~P[int]") for k in UNNORMALISABLE},
 }
@@ -151,6 +211,15 @@ RELEVANT = {
 # datetime, date, time, timedelta) followed by a non-exact one (flag_by_exact_value): a trailing run of exact
 # user entries is merged with them.  Used by the defect model and the grouping labels only.
 BUILTIN_HEAD = ("None", "Any", "object", "datetime", "date", "time", "timedelta")
+# On a wrapped field the docs make the wrapper transparent ("All NewType's are treated as origin types", "Annotated
+# ... processed the same as wrapped types"); what a NEGATED type predicate means there is not stated (does ~P[int]
+# hold for NewType('N', int)?) -> cases that put it on the request MW are unspecified (counted, not evaluated)
+UNSPEC_ON_WRAPPED = ("~P[int]",)
+# classes of predicates for the discriminators of the wrapped-field findings
+PRED_CLASS = {"a": "field_id", "b": "field_id", "nxt": "field_id", "[ab]": "regex", "P[MW].a": "pattern",
+              "P[M].a": "pattern", "P[Node].nxt": "pattern", "P[Node].a": "pattern", "P.ANY": "always_true",
+              "~P[M].a": "always_true", "BARE": "always_true",
+              "int": "type", "P[int]": "type", "Integral": "type", "P[int,str]": "type", "and(int,ANY)": "type"}
 
 
 # ----------------------------------------------------------------------------------- markers
@@ -164,8 +233,10 @@ def mark(tag: int, x):
         return [mark(tag, e) for e in x]
     if isinstance(x, dict):
         return {k: mark(tag, v) for k, v in x.items()}
-    if isinstance(x, M):
-        return M(mark(tag, x.a), mark(tag, x.b))
+    if isinstance(x, (M, MW)):
+        return type(x)(mark(tag, x.a), mark(tag, x.b))
+    if isinstance(x, Node):
+        return Node(mark(tag, x.a), mark(tag, x.nxt))
     raise env.HarnessError(f"marker applied to unexpected datum {x!r}")
 
 
@@ -181,8 +252,10 @@ def digits(v):
         return [digits(e) for e in v]
     if isinstance(v, dict):
         return {k: digits(e) for k, e in v.items()}
-    if isinstance(v, M):
-        return {"M.a": digits(v.a), "M.b": digits(v.b)}
+    if isinstance(v, (M, MW)):
+        return {f"{type(v).__name__}.a": digits(v.a), f"{type(v).__name__}.b": digits(v.b)}
+    if isinstance(v, Node):
+        return {"Node.a": digits(v.a), "Node.nxt": digits(v.nxt)}
     return repr(v)
 
 
@@ -219,6 +292,15 @@ class Plan:
         cls = case.get("cls")
         self.cls_shape = cls["shape"] if cls else None
         self.cls_levels = [self._ents(lv) for lv in cls["levels"]] if cls else []
+        # "derived": retort A (recipe, cls, options) is placed in a recipe / used FIRST, then B = A.extend()/replace()
+        # (the ops) is placed in another recipe (or used directly): B must serve from its own recipe and options
+        self.derived = case.get("derived")
+        if self.derived is not None:
+            d = self.derived
+            if d.get("pre") not in ("none", "place", "nest_use", "direct_use") or \
+                    (d.get("wrap") != "DIRECT" and d.get("wrap") not in PREDS):
+                raise env.HarnessError(f"malformed derived spec {d!r}")
+            self.w_pre, self.w_fin = next(self._n), next(self._n)  # entry numbers of the two holders' retort entries
         self.n_entries = next(self._n)
         if self.n_entries >= BASE - 1:
             raise env.HarnessError("too many entries for the marker base")
@@ -239,10 +321,33 @@ class Plan:
         return out
 
     def reference_ctx(self) -> RCtx:
+        """The retort that finally serves the request: the derived retort, nested in its holder for ``derived``."""
+        own = self.own_ctx()
+        d = self.derived
+        if d is None or d["wrap"] == "DIRECT":
+            return own
+        return self._holder(self.w_fin, d["wrap"], own)
+
+    def pre_ctx(self) -> Optional[RCtx]:
+        """``derived``: the retort used BEFORE the derivation (the original one, directly or nested in a holder)."""
+        d = self.derived
+        if d is None or d["pre"] in ("none", "place"):
+            return None
+        base = self.own_ctx(with_ops=False)
+        return base if d["pre"] == "direct_use" else self._holder(self.w_pre, self.pre_wrap(), base)
+
+    def pre_wrap(self):
+        return "BARE" if self.derived["wrap"] == "DIRECT" else self.derived["wrap"]
+
+    def _holder(self, idx, wrap, inner: RCtx) -> RCtx:
+        d = self.derived
+        return RCtx([Ent(idx, wrap, "retort", inner, [wrap, "retort", {}])], d.get("strict", True), d.get("debug", 2))
+
+    def own_ctx(self, with_ops=True) -> RCtx:
         """Flatten: extend() prepends; replace() only changes scalar options; then class recipes in MRO order."""
         seq = list(self.instance)
         strict, debug = self.strict0, self.debug0
-        for op, arg in self.ops:
+        for op, arg in (self.ops if with_ops else ()):
             if op == "extend":
                 seq = list(arg) + seq
             else:
@@ -284,26 +389,40 @@ class RefUnspecified(Exception):
 
 
 class Ref:
-    """Linear chain-of-responsibility.  ``defect=True`` routes through the transcription of the known defect.
+    """Linear chain-of-responsibility.  ``defect`` routes through the transcription of a known defect:
+    ``"stale"`` (the router's stale one-element table) or ``"unwrap"`` (the two-step lookup of wrapped field types:
+    a field typed NewType / Annotated is searched at the wrapper level, where no ``int`` predicate matches, and the
+    builtin unwrapping provider then searches again from offset 0 for the inner type at the same field location).
+    The reference itself resolves every field location ONCE and treats the wrappers as transparent.
 
     A request nobody can serve: ``resolve`` raises RefNotFound.  A chaining / delegating entry whose rest of the
     recipe fails counts as declining; scanning on from the same offset fails in the same way, so the outcome is
-    RefNotFound as well (only the consultation log is not exact on that path: ``self.failed``)."""
+    RefNotFound as well (only the consultation log is not exact on that path: ``self.failed``).
 
-    def __init__(self, direction: str, defect: bool = False):
+    Self-referential models: the location tree is infinite; it is unrolled as deep as the probe data goes
+    (NODE_LEVELS levels of Node, below that a ``cut`` node that must never be run)."""
+
+    def __init__(self, direction: str, defect=None):
         self.direction = direction
         self.defect = defect
         self.log: list = []  # (stack, idx) in consultation order
         self.failed: set = set()  # stacks whose resolution ran into "nothing can serve this"
+        self.enter = [0]  # stack index at which the retort currently searched was entered
+        # a nested retort was entered BELOW the first occurrence of a location that repeats further down: the cycle's
+        # first request was not sent inside it (that left a never-bound recursion stub until 56bd981; label +
+        # regression signature only)
+        self.entered_inside_cycle = False
 
     def _items(self, ctx: RCtx):
-        if not self.defect:
+        if self.defect != "stale":
             return ctx.seq
         if ctx.buggy is None:
             ctx.buggy = stale_combo_items(ctx.seq)
         return ctx.buggy
 
-    def resolve(self, ctx: RCtx, stack, offset: int = 0):
+    def resolve(self, ctx: RCtx, stack, offset: int = 0):  # noqa: C901, PLR0911, PLR0912
+        if offset == 0 and stack[-1] in stack[:-1] and stack.index(stack[-1]) < self.enter[-1]:
+            self.entered_inside_cycle = True
         items = self._items(ctx)
         for pos in range(offset, len(items)):
             e = items[pos]
@@ -326,14 +445,20 @@ class Ref:
             if k == "last":
                 return ("last", e.idx, self.resolve(ctx, stack, pos + 1))
             if k == "retort":
+                self.enter.append(len(stack) - 1)
                 try:
                     return self.resolve(e.inner, stack, 0)
                 except RefNotFound:
                     raise RefUnspecified from None
+                finally:
+                    self.enter.pop()
             raise env.HarnessError(k)
         return self.builtin(ctx, stack)
 
-    def builtin(self, ctx: RCtx, stack):
+    def _field(self, ctx, stack, tname, fid):
+        return self.resolve(ctx, (*stack, ("F", tname, fid)))
+
+    def builtin(self, ctx: RCtx, stack):  # noqa: PLR0911
         t = _lt(stack)
         if t in UNNORMALISABLE:  # no origin, no builtin provider: nothing is left to serve it
             self.failed.add(stack)
@@ -343,10 +468,23 @@ class Ref:
         if t == "int":
             return ("b_int", ctx.strict)
         if t == "M":
-            return ("b_M", ctx.debug, self.resolve(ctx, (*stack, ("F", "int", "a"))),
-                    self.resolve(ctx, (*stack, ("F", "int", "b"))))
+            return ("b_M", ctx.debug, self._field(ctx, stack, "int", "a"), self._field(ctx, stack, "int", "b"), "M")
+        if t == "MW":  # reference: the field location is resolved once, its type reads as the wrapped type
+            ta, tb = ("N", "Ann") if self.defect == "unwrap" else ("int", "int")
+            return ("b_M", ctx.debug, self._field(ctx, stack, ta, "a"), self._field(ctx, stack, tb, "b"), "MW")
+        if t in WRAPPED:  # only in the defect model: the unwrapping provider sends the request again from offset 0
+            return ("unwrap", self.resolve(ctx, (*stack[:-1], (stack[-1][0], "int", stack[-1][2]))))
+        if t == "Node":
+            return ("b_Node", ctx.debug, self._field(ctx, stack, "int", "a"),
+                    self._field(ctx, stack, "Optional[Node]", "nxt"))
+        if t == "Optional[Node]":
+            if sum(loc[1] == "Node" for loc in stack) >= NODE_LEVELS:
+                return ("b_opt", ("cut",))  # the probe data end here (None)
+            return ("b_opt", self.resolve(ctx, (*stack, ("G", "Node", 0))))
         if t in ("List[int]", "Optional[int]"):
             return ("b_list" if t == "List[int]" else "b_opt", self.resolve(ctx, (*stack, ("G", "int", 0))))
+        if t == "List[Node]":
+            return ("b_list", self.resolve(ctx, (*stack, ("G", "Node", 0))))
         raise env.HarnessError(t)
 
     # -- evaluation of a resolved tree on a datum
@@ -358,6 +496,10 @@ class Ref:
             return self.run(node[2], mark(node[1] + 1, x))
         if tag == "last":
             return mark(node[1] + 1, self.run(node[2], x))
+        if tag == "unwrap":
+            return self.run(node[1], x)
+        if tag == "cut":
+            raise env.HarnessError(f"probe datum {x!r} goes deeper than the reference unrolls the cycle")
         load = self.direction == "load"
         if tag == "b_none":
             if x is not None:
@@ -372,18 +514,98 @@ class Ref:
                 raise RefLoadError(None)  # strict_coercion: only int passes
             return int(x)
         if tag == "b_M":
+            cls = M if node[4] == "M" else MW
             if load:
                 if not isinstance(x, dict):
                     raise env.HarnessError(f"reference model loader got {x!r}")
                 if "a" not in x or "b" not in x:
                     raise RefLoadError(node[1] == 2)  # DebugTrail.ALL collects into AggregateLoadError
-                return M(self.run(node[2], x["a"]), self.run(node[3], x["b"]))
+                return cls(self.run(node[2], x["a"]), self.run(node[3], x["b"]))
+            if type(x) is not cls:
+                raise env.HarnessError(f"reference model dumper got {x!r}")
             return {"a": self.run(node[2], x.a), "b": self.run(node[3], x.b)}
+        if tag == "b_Node":
+            if load:
+                if not isinstance(x, dict):
+                    raise env.HarnessError(f"reference model loader got {x!r}")
+                if "a" not in x or "nxt" not in x:
+                    raise RefLoadError(node[1] == 2 if x == {} else None)
+                return Node(self.run(node[2], x["a"]), self.run(node[3], x["nxt"]))
+            if type(x) is not Node:
+                raise env.HarnessError(f"reference model dumper got {x!r}")
+            return {"a": self.run(node[2], x.a), "nxt": self.run(node[3], x.nxt)}
         if tag == "b_list":
             return [self.run(node[1], e) for e in x]
         if tag == "b_opt":
             return None if x is None else self.run(node[1], x)
         raise env.HarnessError(tag)
+
+
+def strip_unwrap(node):
+    """The composed function of a defect-model tree with the (transparent) unwrap steps removed."""
+    if not isinstance(node, tuple):
+        return node
+    if node and node[0] == "unwrap":
+        return strip_unwrap(node[1])
+    return tuple(strip_unwrap(x) for x in node)
+
+
+def canon_stack(stack):
+    """The location of a wrapper-level stack in the reference's world (wrappers are transparent)."""
+    if stack[-1][1] in WRAPPED:
+        return (*stack[:-1], (stack[-1][0], "int", stack[-1][2]))
+    return stack
+
+
+def canon_ref_log(log):
+    """defect-model log -> {location: one sequence}: wrapper-level consultations followed by inner-type ones."""
+    out: dict = {}
+    for stack, idx in log:
+        out.setdefault(canon_stack(stack), []).append(idx)
+    return out
+
+
+def canon_got_log(got):
+    """real {stack: [sequence per send]} -> the same keyed by location: the sends for the wrapper level and for the
+    inner type of ONE field location are one resolution of that location (the reference resolves it once), so the
+    two sequences are concatenated.  (If either was sent more than once they are kept as separate sends.)"""
+    if got is None or not any(st_[-1][1] in WRAPPED for st_ in got):
+        return got
+    out: dict = {}
+    for stack in sorted(got, key=lambda st_: st_[-1][1] not in WRAPPED):  # wrapper-level stacks first
+        sends, loc = got[stack], canon_stack(stack)
+        if loc in out and len(out[loc]) == 1 and len(sends) == 1:
+            out[loc] = [out[loc][0] + sends[0]]
+        else:
+            out.setdefault(loc, []).extend(list(g) for g in sends)
+    return out
+
+
+def unwrap_class(plan, ref_tree, ref_log, bug_tree, bug_log, by_idx):
+    """How the defect model of the two-step lookup differs from the reference on a case (pure data) ->
+    None | ("twice", discr) | ("deferred", discr) | ("other", discr)."""
+    bug_canon = canon_ref_log(bug_log)
+    if strip_unwrap(bug_tree) == ref_tree and bug_canon == ref_log:
+        return None
+    # the first field location (in resolution order) whose consultation sequence differs
+    for stack, seq in bug_canon.items():
+        exp = ref_log.get(stack, [])
+        if seq == exp:
+            continue
+        wrapper = {"a": "newtype", "b": "annotated"}.get(stack[-1][2], "?") \
+            if len(stack) >= 2 and stack[-2][1] == "MW" else "?"
+        twice = [i for i in seq if seq.count(i) >= 2 and seq.count(i) > exp.count(i)]
+        if twice:
+            e = by_idx[twice[0]]
+            return "twice", ("wrapped_field", wrapper, PRED_CLASS.get(e.pred, "other"), e.kind)
+        # nobody twice: the wrapper level served / chained with entries that do not depend on the type while the
+        # entries for the inner type were not visible yet
+        classes = {PRED_CLASS.get(by_idx[i].pred, "other") for i in set(seq) | set(exp)}
+        has_type = "type" in classes
+        has_loc = bool(classes & {"field_id", "regex", "pattern", "always_true"})
+        return "deferred", ("wrapped_field", wrapper,
+                            "type_entry+location_entry" if has_type and has_loc and "other" not in classes else "other")
+    return "other", ("wrapped_field", "?", "other")
 
 
 def stale_combo_items(seq):
@@ -535,6 +757,22 @@ class Builder:
         return p
 
     def retort(self, plan: Plan):
+        return self.apply_ops(self.base_retort(plan), plan)
+
+    def holder(self, plan: Plan, idx, wrap, inner):
+        """A fresh retort whose only recipe entry is ``inner`` (bare or bound), with the holder's own options."""
+        if wrap == "BARE":
+            p = inner
+        elif wrap == "and(int,ANY)":
+            p = bound(int, bound(P.ANY, inner))
+        else:
+            p = bound(PREDS[wrap][0](), inner)
+        if self.logged:
+            p = Wrapped(p, idx, "call", self.log, self.req_name)
+        d = plan.derived
+        return Retort(recipe=[p], strict_coercion=d.get("strict", True), debug_trail=DEBUG[d.get("debug", 2)])
+
+    def base_retort(self, plan: Plan):
         cls = Retort
         if plan.cls_shape == "chain":
             for lv in reversed(plan.cls_levels):  # least derived first
@@ -544,8 +782,10 @@ class Builder:
             a = type(Retort)(f"C09Retort{next(_cls_counter)}", (Retort,), {"recipe": [self.provider(e) for e in left]})
             b = type(Retort)(f"C09Retort{next(_cls_counter)}", (Retort,), {"recipe": [self.provider(e) for e in right]})
             cls = type(Retort)(f"C09Retort{next(_cls_counter)}", (a, b), {"recipe": [self.provider(e) for e in top]})
-        r = cls(recipe=[self.provider(e) for e in plan.instance], strict_coercion=plan.strict0,
-                debug_trail=DEBUG[plan.debug0])
+        return cls(recipe=[self.provider(e) for e in plan.instance], strict_coercion=plan.strict0,
+                   debug_trail=DEBUG[plan.debug0])
+
+    def apply_ops(self, r, plan: Plan):
         for op, arg in plan.ops:
             if op == "extend":
                 r = r.extend(recipe=[self.provider(e) for e in arg])
@@ -560,9 +800,20 @@ class Builder:
 
 
 # ----------------------------------------------------------------------------------- probe data
+def node_datum(direction, levels=NODE_LEVELS):
+    x = None
+    for _ in range(levels):
+        x = {"a": 0, "nxt": x} if direction == "load" else Node(0, x)
+    return x
+
+
 def main_datum(req, direction):
-    if req == "M":
-        return {"a": 0, "b": 0} if direction == "load" else M(0, 0)
+    if req in ("M", "MW"):
+        return {"a": 0, "b": 0} if direction == "load" else REQ_TYPES[req](0, 0)
+    if req == "Node":
+        return node_datum(direction)
+    if req == "List[Node]":
+        return [node_datum(direction), node_datum(direction, 1)]
     if req == "None":
         return None
     if req in UNNORMALISABLE:  # only a matching user entry can serve it; the markers work on the int
@@ -572,7 +823,12 @@ def main_datum(req, direction):
 
 def option_data(req):
     """Load-only data whose outcome depends on the options of the retort whose builtin provider serves it."""
-    out = {"int": ["5"], "M": [{"a": "5", "b": 0}, {}], "List[int]": [["5", 0]], "Optional[int]": ["5"]}
+    out = {"int": ["5"], "M": [{"a": "5", "b": 0}, {}], "List[int]": [["5", 0]], "Optional[int]": ["5"],
+           "MW": [{"a": "5", "b": 0}, {"a": 0, "b": "5"}, {}],
+           # strictness of the retort that serves the int leaf of the first / of the innermost node (the latter is
+           # reached through the recursion), missing fields at the top
+           "Node": [{"a": "5", "nxt": None}, {"a": 0, "nxt": {"a": 0, "nxt": {"a": "5", "nxt": None}}}, {}],
+           "List[Node]": [[{"a": 0, "nxt": {"a": "5", "nxt": None}}]]}
     return out.get(req, [])
 
 
@@ -612,7 +868,7 @@ def same_value(a, b):
 
 
 # ----------------------------------------------------------------------------------- the oracle
-def reference(top: RCtx, direction, req, defect=False):
+def reference(top: RCtx, direction, req, defect=None):
     """-> (kind, tree, Ref); kind: 'value' (tree is the composed function) | 'not_found' | 'unspecified'"""
     ref = Ref(direction, defect)
     try:
@@ -623,7 +879,31 @@ def reference(top: RCtx, direction, req, defect=False):
         return "unspecified", None, ref
 
 
-def compare(kind, tree, ref: Ref, by_idx, status, got, got_log, logged, datum):
+def optional_stacks(req, ref_log):
+    """Self-referential requests: a location whose stack holds some type twice lies at or below the point where the
+    cycle comes round.  Whether adaptix sends a request of its own for it or answers it by the request already in
+    progress (recursion stub, nobody is consulted again) is not specified -> such a location MAY be absent from the
+    real log; when a request for it was sent it must show the reference's sequence like any other."""
+    if req not in REC_REQS:
+        return frozenset()
+    return frozenset(s for s in ref_log if len({loc[1] for loc in s}) < len(s))
+
+
+def prepare_got(req, got_log):
+    """Real log -> the reference's location space: wrapper-level and inner-type sends of one wrapped field are one
+    resolution; sends below the depth the reference unrolls a cycle to are dropped (-> number dropped)."""
+    if got_log is None:
+        return None, 0
+    if req == "MW":
+        return canon_got_log(got_log), 0
+    if req in REC_REQS:
+        deep = [s for s in got_log if sum(loc[1] == "Node" for loc in s) > NODE_LEVELS]
+        if deep:
+            return {s: v for s, v in got_log.items() if s not in deep}, len(deep)
+    return got_log, 0
+
+
+def compare(kind, tree, ref: Ref, by_idx, status, got, got_log, logged, datum, optional=frozenset()):  # noqa: PLR0911
     """Verdict of the main oracle -> (agrees, primary difference or None, a sub-request was sent more than once)."""
     def matches(stack, idx):
         return PREDS[by_idx[idx].pred][2](stack)
@@ -638,37 +918,52 @@ def compare(kind, tree, ref: Ref, by_idx, status, got, got_log, logged, datum):
     elif status == "not_found":
         return False, "provider_not_found_although_a_matching_provider_serves", False
     elif not same_value(got, ref.run(tree, datum)):
-        if logged and not _cmp_logs(got_log, ref_log, ref.failed, matches)[0]:
-            return False, _log_diff(got_log, ref_log), False
+        if logged and not _cmp_logs(got_log, ref_log, ref.failed, matches, optional)[0]:
+            return False, _log_diff(got_log, ref_log, optional), False
         return False, "value_only", False
     if not logged:
         return True, None, False
-    ok, rep = _cmp_logs(got_log, ref_log, ref.failed, matches)
-    return ok, (None if ok else _log_diff(got_log, ref_log)), rep
+    ok, rep = _cmp_logs(got_log, ref_log, ref.failed, matches, optional)
+    return ok, (None if ok else _log_diff(got_log, ref_log, optional)), rep
 
 
-def check_case(ctx: runner.Ctx, case):  # noqa: C901, PLR0912, PLR0915
+def check_case(ctx: runner.Ctx, case):  # noqa: C901, PLR0911, PLR0912, PLR0915
     direction, req, logged = case["dir"], case["req"], case.get("logged", True)
     plan = Plan(case)
     top = plan.reference_ctx()
+    pre_top = plan.pre_ctx()
     stack0 = (("T", req, None),)
+    ctxs = plan.all_ctx(top)
+    by_idx = {e.idx: e for c in ctxs for e in c.seq}
+    if pre_top is not None:
+        by_idx.update({e.idx: e for c in plan.all_ctx(pre_top) for e in c.seq})
+    if req == "MW":
+        if plan.derived is not None:
+            raise env.HarnessError("derived cases are not generated for the request MW")
+        if any(e.pred in UNSPEC_ON_WRAPPED for e in by_idx.values()):
+            ctx.count("unspecified_negated_type_predicate_on_a_wrapped_field")
+            return
 
     kind, tree, ref = reference(top, direction, req)
     ref_log = per_stack(ref.log)
-    affected = False
-    if KNOWN_OPEN:  # the transcription of the open finding (classification only, see module docstring)
-        bug_kind, bug_tree, bug = reference(top, direction, req, defect=True)
+    optional = optional_stacks(req, ref_log)
+    affected, uclass = False, None
+    if req == "MW":  # transcription of the two-step lookup of wrapped field types (classification only)
+        bug_kind, bug_tree, bug = reference(top, direction, req, defect="unwrap")
+        if kind != "value" or bug_kind != "value":
+            raise env.HarnessError("MW is always servable")
+        uclass = unwrap_class(plan, tree, ref_log, bug_tree, bug.log, by_idx)
+    elif KNOWN_OPEN:  # the transcription of the open finding (classification only, see module docstring)
+        bug_kind, bug_tree, bug = reference(top, direction, req, defect="stale")
         affected = (bug_kind, bug_tree) != (kind, tree) or per_stack(bug.log) != ref_log
 
     # ---- evidence: what does this case exercise?
-    ctxs = plan.all_ctx(top)
     feats = set()
     for c in ctxs:
         feats |= grouping_features(c.seq)
     if len(feats) > 1:
         feats.discard("grp:none")
     n_match_max, first_kinds, n_decl, n_pass = 0, set(), 0, 0
-    by_idx = {e.idx: e for c in ctxs for e in c.seq}
     for idxs in ref_log.values():
         n_match_max = max(n_match_max, len(idxs))
         first_kinds.add(by_idx[idxs[0]].kind)
@@ -716,11 +1011,44 @@ def check_case(ctx: runner.Ctx, case):  # noqa: C901, PLR0912, PLR0915
             labels.append("feat:nested_retort_bare")
         if any(e.kind == "retort" and e.pred != "BARE" for e in by_idx.values()):
             labels.append("feat:nested_retort_bound")
+    if req in REC_REQS:
+        # the location at which the cycle comes round in adaptix today: the field for the request Node, the model
+        # below the list for List[Node]; a chaining entry there is what the recursion must not lose further down
+        closing = (*stack0, ("F", "Optional[Node]", "nxt")) if req == "Node" else (*stack0, ("G", "Node", 0))
+        at_closing = [by_idx[i].kind for i in ref_log.get(closing, [])]
+        if any(k in ("first", "last") for k in at_closing):
+            labels.append("rec:chaining_entry_at_the_cycle_closing_location")
+            nontrivial = True
+        elif at_closing:
+            labels.append("rec:entry_consulted_at_the_cycle_closing_location")
+        below = [s for s in ref_log if s in optional]
+        if any(by_idx[i].kind in ("first", "last") for s in below for i in ref_log[s]):
+            labels.append("rec:chaining_entry_below_the_cycle_closing_location")
+        if ref.entered_inside_cycle:
+            labels.append("rec:nested_retort_entered_inside_the_cycle")
+    if req == "MW":
+        labels.append("wrapped:" + ("two_step_lookup_not_observable" if uclass is None else
+                                    f"known:{uclass[0]}(probe)" if uclass[0] != "other" else "other"))
+        if any(PRED_CLASS.get(by_idx[i].pred) == "type" for idxs in ref_log.values() for i in idxs):
+            labels.append("wrapped:type_entry_consulted_for_a_wrapped_field")
+    if plan.derived is not None:
+        d = plan.derived
+        labels += ["feat:derived", f"derived:pre={d['pre']}",
+                   "derived:final=" + ("direct" if d["wrap"] == "DIRECT" else "nested")]
+        # would serving from the ORIGINAL retort (same holder) be told apart from serving from the derived one?
+        orig = plan.own_ctx(with_ops=False)
+        orig_top = orig if d["wrap"] == "DIRECT" else plan._holder(plan.w_fin, d["wrap"], orig)
+        okind, otree, oref = reference(orig_top, direction, req)
+        if (okind, otree) != (kind, tree) or per_stack(oref.log) != ref_log:
+            labels.append("derived:derivation_observable")
+            if d["pre"] != "none":
+                labels.append("derived:derivation_observable+original_used_before")
+            nontrivial = True
     if affected:
         labels.append("known:affected_by_open_finding(probe)")
     if case.get("repaired"):
         ctx.count("excluded_known")
-    key = {k: case.get(k) for k in ("dir", "req", "recipe", "ops", "cls", "logged", "strict", "debug")}
+    key = {k: case.get(k) for k in ("dir", "req", "recipe", "ops", "cls", "logged", "strict", "debug", "derived")}
     datum = main_datum(req, direction)
     expected = digits(ref.run(tree, datum)) if kind == "value" else \
         "ProviderNotFoundError" if kind == "not_found" else "unspecified"
@@ -729,23 +1057,61 @@ def check_case(ctx: runner.Ctx, case):  # noqa: C901, PLR0912, PLR0915
     if kind == "unspecified":
         ctx.count("unspecified_nested_retort_cannot_serve_the_request")
 
-    feature = ("nested" if len(ctxs) > 1 else "cls" if plan.cls_shape else "ops" if plan.ops else "plain_retort")
+    feature = ("derived" if plan.derived is not None else "nested" if len(ctxs) > 1 else
+               "cls" if plan.cls_shape else "ops" if plan.ops else "plain_retort")
 
     # ---- run the real thing
-    status, got, got_log, func = run_real(plan, direction, req, logged, datum, call=kind == "value")
+    pre_ref = reference(pre_top, direction, req) if pre_top is not None else None
+    status, got, raw_log, func = run_real(plan, direction, req, logged, datum, call=kind == "value",
+                                          pre_call=pre_ref is not None and pre_ref[0] == "value")
+    if pre_ref is not None:  # ``derived``: the original retort was used first -- same oracle
+        ctx.count("derived_pre_use_checked")
+        st1, got1, log1, _ = plan.pre_result
+        where1 = f"derived_pre_use:{plan.derived['pre']}"
+        if st1 not in ("ok", "not_found"):
+            ctx.violation(st1[0], (type(st1[1]).__name__, exc_site(st1[1]), direction, where1), case,
+                          f"use of the original retort before the derivation, datum={datum!r}: {describe(st1[1])}")
+            return
+        log1, _ = prepare_got(req, log1)
+        ok1, diff1, _ = compare(pre_ref[0], pre_ref[1], pre_ref[2], by_idx, st1, got1, log1, logged, datum,
+                                optional_stacks(req, per_stack(pre_ref[2].log)))
+        if not ok1:
+            ctx.violation("resolution_mismatch", ("unexplained", diff1, where1, direction), case,
+                          f"use of the ORIGINAL retort before the derivation: request={req} dir={direction} "
+                          f"got={digits(got1) if st1 == 'ok' and pre_ref[0] == 'value' else st1} "
+                          f"log got={fmt_log(log1) if logged else 'n/a'} "
+                          f"expected={fmt_log(per_stack(pre_ref[2].log))}; recipe={pre_top.seq}")
+            return
     if status not in ("ok", "not_found"):
         vkind, e = status
+        if vkind == "call_failed" and ref.entered_inside_cycle and _unbound_stub_error(e):
+            vkind = "nested_retort_unbound_recursion_stub"  # regression signature of the repaired finding 56bd981
         ctx.violation(vkind, (type(e).__name__, exc_site(e), direction), case,
                       f"datum={datum!r} expected={expected}: {describe(e)}; reference recipe={top.seq}")
         return
-    ok, diff, log_rep = compare(kind, tree, ref, by_idx, status, got, got_log, logged, datum)
+    got_log, too_deep = prepare_got(req, raw_log)
+    if too_deep:
+        ctx.count("unspecified_request_sent_below_the_depth_the_reference_unrolls", too_deep)
+    ok, diff, log_rep = compare(kind, tree, ref, by_idx, status, got, got_log, logged, datum, optional)
     if not ok:
-        # "stale_single_combo" == the real tree behaves EXACTLY (value and log) as the transcription of the known
-        # defect predicts for this case; anything else stays "unexplained"
+        # a known-defect model explains a mismatch only if the real tree behaves EXACTLY (value and raw log) as the
+        # transcription predicts for this case; anything else stays "unexplained"
         explained = "unexplained"
         if affected and compare(bug_kind, bug_tree, bug, by_idx, status, got, got_log, logged, datum)[0]:
             explained = "stale_single_combo"
             ctx.count("mismatches_explained_exactly_by_known_defect_model")
+        if uclass is not None and compare(bug_kind, bug_tree, bug, by_idx, status, got, raw_log, logged, datum)[0]:
+            ctx.count("mismatches_explained_exactly_by_two_step_lookup_model")
+            if uclass[0] in ("twice", "deferred"):
+                vkind = {"twice": "chained_twice_through_unwrapping",
+                         "deferred": "type_predicate_deferred_behind_unwrapping"}[uclass[0]]
+                ctx.violation(vkind, uclass[1], case,
+                              f"request={req} dir={direction} got={digits(got)} expected={expected}; consultation "
+                              f"log got={fmt_log(raw_log) if logged else 'n/a'} (N / Ann = the field's request at "
+                              f"the wrapper level, int = the request the unwrapping provider sends again from "
+                              f"offset 0) expected for the field location={fmt_log(ref_log)}; recipe={top.seq}")
+                return
+            explained = "two_step_lookup_of_wrapped_field_other"
         # localise the root cause: does the equivalent flat ``Retort(recipe=...)`` disagree as well (-> routing), or
         # only the construction route (extend / replace / class recipes)?  is the other direction wrong as well?
         where = feature
@@ -755,6 +1121,13 @@ def check_case(ctx: runner.Ctx, case):  # noqa: C901, PLR0912, PLR0915
             where = "routing" if not agrees(flat) else feature
         elif feature == "plain_retort":
             where = "routing"
+        elif feature == "derived":  # does it take the earlier use of the original retort?
+            d = plan.derived
+            fresh = d["pre"] == "none" or not agrees(dict(case, derived=dict(d, pre="none")))
+            where = (f"derived:{'whatever_was_done_with_the_original' if fresh else 'only_after_pre=' + d['pre']}"
+                     f":final={'direct' if d['wrap'] == 'DIRECT' else 'nested'}")
+        if req in REC_REQS:
+            where += ":recursive_type"
         other = dict(case, dir="dump" if direction == "load" else "load")
         dirs = "both_directions" if not agrees(other) else f"{direction}_only"
         got_txt = "ProviderNotFoundError" if status == "not_found" else \
@@ -767,6 +1140,8 @@ def check_case(ctx: runner.Ctx, case):  # noqa: C901, PLR0912, PLR0915
         return
     if log_rep:
         ctx.count("unspecified_sub_request_sent_more_than_once")
+    if uclass is not None and logged:  # (unlogged: a difference in consultations only is not observable)
+        ctx.count("two_step_lookup_model_predicted_a_difference_but_reference_held")
     if affected and logged:
         ctx.count("known_defect_model_predicted_a_difference_but_reference_held")
     if kind == "not_found" and logged and any(len(g) != len(set(g)) for sends in got_log.values() for g in sends):
@@ -798,28 +1173,56 @@ def check_case(ctx: runner.Ctx, case):  # noqa: C901, PLR0912, PLR0915
                               f"reference recipe={top.seq} options strict={top.strict} debug={top.debug}")
 
 
-def run_real(plan: Plan, direction, req, logged, datum, call=True):
+def _unbound_stub_error(e, depth=0) -> bool:
+    """TypeError("'NoneType' object is not callable"), possibly inside the exception groups of debug_trail=ALL"""
+    if isinstance(e, TypeError) and "'NoneType' object is not callable" in str(e):
+        return True
+    return depth < 8 and any(_unbound_stub_error(x, depth + 1) for x in getattr(e, "exceptions", ()))
+
+
+def _use(builder, retort, direction, req, datum, call):
     """-> (status, value, {stack: [sequence per send]}, loader-or-dumper);
     status: 'ok' | 'not_found' (the facade raised ProviderNotFoundError) | (violation kind, exception)"""
-    builder = Builder(direction, logged)
-    retort = builder.retort(plan)
     tp = REQ_TYPES[req]
+    start = len(builder.log)
     try:
         func = retort.get_loader(tp) if direction == "load" else retort.get_dumper(tp)
     except ProviderNotFoundError:
-        return "not_found", None, per_send(builder.log), None
+        return "not_found", None, per_send(builder.log[start:]), None
     except Exception as e:  # noqa: BLE001 -- resolution either succeeds or reports ProviderNotFoundError
         return ("resolution_failed", e), None, None, None
-    creation_log = list(builder.log)
+    creation_log = builder.log[start:]
     if not call:  # the outcome "a loader / dumper was produced" is all that is compared
         return "ok", None, per_send(creation_log), func
     try:
         got = func(datum)
     except Exception as e:  # noqa: BLE001 -- markers and builtin providers accept the main datum by construction
         return ("call_failed", e), None, None, None
-    if len(builder.log) != len(creation_log):
+    if len(builder.log) - start != len(creation_log):
         return ("consulted_at_call_time", env.HarnessError("providers consulted while loading/dumping")), None, None, None
     return "ok", got, per_send(creation_log), func
+
+
+def run_real(plan: Plan, direction, req, logged, datum, call=True, pre_call=False):
+    """Build the retort(s) of the case and use the final one -> result of ``_use``.
+    ``derived``: the original retort A is built, placed in a holder's recipe and / or used (``plan.pre_result``),
+    THEN B = A.extend(...) / A.replace(...) is derived and placed in a fresh holder (or used directly)."""
+    builder = Builder(direction, logged)
+    d = plan.derived
+    if d is None:
+        return _use(builder, builder.retort(plan), direction, req, datum, call)
+    original = builder.base_retort(plan)
+    plan.pre_result = None
+    if d["pre"] == "place":  # building the holder is what asks the original for its request handlers
+        builder.holder(plan, plan.w_pre, plan.pre_wrap(), original)
+    elif d["pre"] == "nest_use":
+        plan.pre_result = _use(builder, builder.holder(plan, plan.w_pre, plan.pre_wrap(), original), direction, req,
+                               datum, pre_call)
+    elif d["pre"] == "direct_use":
+        plan.pre_result = _use(builder, original, direction, req, datum, pre_call)
+    derived = builder.apply_ops(original, plan)
+    final = derived if d["wrap"] == "DIRECT" else builder.holder(plan, plan.w_fin, d["wrap"], derived)
+    return _use(builder, final, direction, req, datum, call)
 
 
 def agrees(case) -> bool:
@@ -833,7 +1236,9 @@ def agrees(case) -> bool:
     status, got, got_log, _ = run_real(plan, direction, req, logged, datum, call=kind == "value")
     if status not in ("ok", "not_found"):
         return False
-    return compare(kind, tree, ref, by_idx, status, got, got_log, logged, datum)[0]
+    got_log, _ = prepare_got(req, got_log)
+    return compare(kind, tree, ref, by_idx, status, got, got_log, logged, datum,
+                   optional_stacks(req, per_stack(ref.log)))[0]
 
 
 def _fmt_outcome(o):
@@ -847,25 +1252,26 @@ def _max_compose(node):
         return 1
     if tag in ("first", "last"):
         return 1 + _max_compose(node[2])
-    if tag in ("b_int", "b_none"):
+    if tag in ("b_int", "b_none", "cut"):
         return 0
-    if tag == "b_M":
+    if tag in ("b_M", "b_Node"):
         return max(_max_compose(node[2]), _max_compose(node[3]))
     return _max_compose(node[1])
 
 
-def _cmp_logs(got, exp, failed=(), matches=None):
+def _cmp_logs(got, exp, failed=(), matches=None, optional=frozenset()):
     """-> (agrees, some sub-request was sent more than once).  Every send of a location must show exactly the
     reference's consultation sequence; the top-level request is sent once by the harness; how often a builtin
     provider sends the same sub-request is not specified (counted).
     Locations in ``failed`` (nothing can serve them): a chaining / delegating entry whose rest of the recipe fails is
     treated as declining by the request bus, which then scans the same rest again -- not specified, so only
-    membership (every consulted entry's predicate matches) and the first consulted entry are asserted there."""
-    if set(got) != set(exp):
+    membership (every consulted entry's predicate matches) and the first consulted entry are asserted there.
+    Locations in ``optional`` (self-referential requests, see ``optional_stacks``) may be absent."""
+    if not (set(exp) - optional <= set(got) <= set(exp)):
         return False, False
     rep = False
-    for stack, e in exp.items():
-        sends = got[stack]
+    for stack, sends in got.items():
+        e = exp[stack]
         if stack in failed:
             if any(g[0] != e[0] or not all(matches(stack, i) for i in g) for g in sends):
                 return False, False
@@ -878,10 +1284,12 @@ def _cmp_logs(got, exp, failed=(), matches=None):
     return True, rep
 
 
-def _log_diff(got, exp):
+def _log_diff(got, exp, optional=frozenset()):
     """Primary class of a consultation-log disagreement (one word, so that one cause gives few buckets)."""
     kinds = set()
     for stack in set(got) | set(exp):
+        if stack in optional and stack not in got:
+            continue
         e = exp.get(stack, [])
         for g in got.get(stack, [[]]):
             if g == e:
@@ -904,8 +1312,8 @@ def _log_diff(got, exp):
 
 
 # ----------------------------------------------------------------------------------- known-finding switch
-def known_open() -> bool:
-    return any(e.get("id") == KNOWN_ID and e.get("status") == "open" for e in runner.load_known(PROP))
+def known_open(known_id=KNOWN_ID) -> bool:
+    return any(e.get("id") == known_id and e.get("status") == "open" for e in runner.load_known(PROP))
 
 
 def exclusion_active() -> bool:
@@ -917,8 +1325,33 @@ def exclusion_active() -> bool:
 def is_affected(case) -> bool:
     top = Plan(case).reference_ctx()
     ka, ta, a = reference(top, case["dir"], case["req"])
-    kb, tb, b = reference(top, case["dir"], case["req"], defect=True)
+    kb, tb, b = reference(top, case["dir"], case["req"], defect="stale")
     return (ka, ta) != (kb, tb) or a.log != b.log
+
+
+def wrapped_class(case):
+    """Request MW: which open finding on wrapped fields a case runs into (pure data) -> None | 'twice' | 'deferred'
+    | 'other'."""
+    plan = Plan(case)
+    top = plan.reference_ctx()
+    if any(e.pred in UNSPEC_ON_WRAPPED for c in plan.all_ctx(top) for e in c.seq):
+        return None
+    _, tree, a = reference(top, case["dir"], "MW")
+    _, bug_tree, b = reference(top, case["dir"], "MW", defect="unwrap")
+    by_idx = {e.idx: e for c in plan.all_ctx(top) for e in c.seq}
+    u = unwrap_class(plan, tree, per_stack(a.log), bug_tree, b.log, by_idx)
+    return None if u is None else u[0]
+
+
+def excluded_wrapped(case, salt) -> bool:
+    """Exclusion by construction while the two findings on wrapped fields are open: 7/8 of the cases that run into
+    one of them are left out (the rest are the probes behind the KNOWN-FINDING lines)."""
+    if case["req"] != "MW":
+        return False
+    cls = wrapped_class(case)
+    if cls == "twice" and EXCLUDE_TWICE or cls == "deferred" and EXCLUDE_DEFER:
+        return runner.h64([salt, case["recipe"], case["dir"]]) % 8 != 0
+    return False
 
 
 def repair_recipe(raw):
@@ -978,6 +1411,7 @@ def st_recipe(draw, req, min_size, max_size, depth):
     relevant = RELEVANT[req]
     rel_exact = [p for p in relevant if PREDS[p][1] is not None]
     rel_non = [p for p in relevant if PREDS[p][1] is None]
+    nonexact = NONEXACT_PREDS if req != "MW" else [p for p in NONEXACT_PREDS if p not in UNSPEC_ON_WRAPPED]
     for _ in range(n):
         exact = draw(st.integers(0, 9)) < (7 if prev_exact else 5)
         if exact:
@@ -999,7 +1433,7 @@ def st_recipe(draw, req, min_size, max_size, depth):
                 run.append(pred)
         else:
             pred = draw(st.sampled_from(rel_non)) if draw(st.integers(0, 9)) < 7 else draw(
-                st.sampled_from(NONEXACT_PREDS))
+                st.sampled_from(nonexact))
             run = []
         prev_exact = exact
         if depth > 0 and draw(st.integers(0, 19)) == 0:
@@ -1018,10 +1452,12 @@ def st_recipe(draw, req, min_size, max_size, depth):
 @st.composite
 def st_case(draw):
     req = draw(_weights([("int", 3), ("M", 3), ("List[int]", 3), ("Optional[int]", 3), ("FR", 3), ("List[FR]", 2),
-                         ("bare Literal", 1), ("bare Union", 1), ("object 5", 1), ("list['Missing']", 1), ("None", 1)]))
+                         ("bare Literal", 1), ("bare Union", 1), ("object 5", 1), ("list['Missing']", 1), ("None", 1),
+                         ("Node", 3), ("List[Node]", 2), ("MW", 2)]))
     case = {"dir": draw(st.sampled_from(["load", "load", "dump"])), "req": req,
             "logged": draw(st.integers(0, 4)) > 0, "strict": draw(st.booleans()), "debug": draw(st.integers(0, 2))}
-    shape = draw(_weights([("long", 6), ("ops", 3), ("cls", 3), ("nested", 3)]))
+    shape = draw(_weights([("long", 6), ("ops", 3), ("cls", 3), ("nested", 3),
+                           ("derived", 3 if req != "MW" else 0)]))
     depth = 2 if shape == "nested" else 0
     lo, hi = (5, 10) if shape == "long" else (1, 6)
     case["recipe"] = draw(st_recipe(req, lo, hi, depth))
@@ -1030,7 +1466,7 @@ def st_case(draw):
         pos = draw(st.integers(0, len(case["recipe"])))
         pred = draw(st.sampled_from(["BARE", *RELEVANT[req]]))
         case["recipe"].insert(pos, [pred, "retort", inner])
-    if shape == "ops":
+    if shape in ("ops", "derived"):
         ops = []
         for _ in range(draw(st.integers(1, 2))):
             if draw(st.booleans()):
@@ -1047,9 +1483,18 @@ def st_case(draw):
             case["cls"] = {"shape": "diamond", "levels": [draw(st_recipe(req, 0, 2, 0)) for _ in range(3)]}
         if draw(st.integers(0, 3)) == 0:
             case["ops"] = [{"extend": draw(st_recipe(req, 1, 2, 0))}]
+    if shape == "derived":
+        if draw(st.integers(0, 3)) == 0:
+            case["cls"] = {"shape": "chain", "levels": [draw(st_recipe(req, 0, 2, 0))
+                                                        for _ in range(draw(st.integers(1, 2)))]}
+        case["derived"] = {"pre": draw(_weights([("none", 1), ("place", 3), ("nest_use", 4), ("direct_use", 2)])),
+                           "wrap": draw(st.sampled_from(["BARE", "BARE", "DIRECT", *RELEVANT[req]])),
+                           "strict": draw(st.booleans()), "debug": draw(st.integers(0, 2))}
     probe = draw(st.integers(0, 15)) == 0
     if EXCLUDE_KNOWN and not probe and is_affected(case):
         case = repair_case(case)
+    if excluded_wrapped(case, "sampled"):
+        case = dict(case, req="M", repaired=True)  # the twin model with plain int fields
     return case
 
 
@@ -1091,7 +1536,58 @@ FIXED = [
                                             ["P.ANY", "plain"]]},
     {"dir": "load", "req": "None", "recipe": [["str", "plain"], ["None", "pass"], ["P.ANY", "decline"]]},
     {"dir": "dump", "req": "None", "recipe": [["None", "decline"], ["None", "plain"], ["P.ANY", "plain"]]},
+    # a chaining entry composes exactly once at EVERY nesting level of a self-referential model (field / model itself)
+    {"dir": "load", "req": "Node", "recipe": [["P[Node].nxt", "first"]]},
+    {"dir": "load", "req": "Node", "recipe": [["nxt", "last"]]},
+    {"dir": "dump", "req": "Node", "recipe": [["P[Node].nxt", "last"]]},
+    {"dir": "load", "req": "List[Node]", "recipe": [["Node", "first"], ["nxt", "last"]]},
+    {"dir": "dump", "req": "List[Node]", "recipe": [["Node", "last"]]},
+    # a nested retort entered inside the cycle (crashed with a never-bound recursion stub until 56bd981)
+    {"dir": "load", "req": "List[Node]", "recipe": [["nxt", "retort", {"recipe": [["int", "first"]], "strict": False}]]},
+    {"dir": "dump", "req": "List[Node]", "recipe": [["Optional[Node]", "retort", {"recipe": [["a", "last"]]}]]},
+    # a retort derived by extend() / replace() from one that has already been placed in a recipe serves from its OWN
+    # recipe and options when it is placed in a recipe itself
+    {"dir": "load", "req": "int", "recipe": [["int", "plain"]], "ops": [{"extend": [["int", "plain"]]}],
+     "derived": {"pre": "nest_use", "wrap": "BARE", "strict": True, "debug": 2}},
+    {"dir": "load", "req": "int", "recipe": [], "strict": True, "ops": [{"replace": {"strict": False, "debug": None}}],
+     "derived": {"pre": "place", "wrap": "BARE", "strict": True, "debug": 2}},
+    {"dir": "dump", "req": "M", "recipe": [["a", "first"]], "ops": [{"extend": [["P[M].a", "last"]]}],
+     "derived": {"pre": "direct_use", "wrap": "M", "strict": False, "debug": 0}},
+    # fields typed NewType / Annotated: type entries serve them once (after the unwrapping); the entries keyed by the
+    # field location are the probes of the two open findings
+    {"dir": "load", "req": "MW", "recipe": [["int", "first"], ["Integral", "last"]]},
+    {"dir": "dump", "req": "MW", "recipe": [["P[int]", "last"], ["int", "plain"]]},
+    {"dir": "load", "req": "MW", "recipe": [["a", "plain"], ["MW", "first"]]},
+    {"dir": "load", "req": "MW", "recipe": [["a", "first"]]},
+    {"dir": "dump", "req": "MW", "recipe": [["b", "last"]]},
+    {"dir": "load", "req": "MW", "recipe": [["P[MW].a", "first"]]},
+    {"dir": "load", "req": "MW", "recipe": [["[ab]", "pass"]]},
+    {"dir": "load", "req": "MW", "recipe": [["P.ANY", "first"]]},
+    {"dir": "load", "req": "MW", "recipe": [["int", "plain"], ["a", "plain"]]},
+    {"dir": "dump", "req": "MW", "recipe": [["int", "first"], ["b", "plain"]]},
 ]
+
+# alphabets of the additional enumerations
+REC_PREDS = ("Node", "nxt", "P[Node].nxt", "Optional[Node]", "a", "int", "P.ANY", "list")
+REC = [(p, k) for p in REC_PREDS for k in KINDS]
+WR_PREDS = ("a", "[ab]", "P[MW].a", "int", "Integral", "P.ANY", "MW")
+WR = [(p, k) for p in WR_PREDS for k in KINDS]
+DER_BASE = ([], [["int", "plain"]], [["int", "first"]], [["a", "last"]], [["P.ANY", "first"]],
+            [["int", "decline"], ["P.ANY", "last"]])
+DER_EXT = ([["int", "plain"]], [["int", "first"]], [["P.ANY", "last"]], [["a", "plain"]])
+DER_WRAPS = ("BARE", "P.ANY", "int", "DIRECT")
+DER_PRE = ("none", "place", "nest_use", "direct_use")
+DER_REQS = ("int", "M", "List[int]", "Optional[int]")
+
+
+def der_ops(strict, debug):
+    """extend / replace sequences; replace() always changes the option it names"""
+    flip_s = {"replace": {"strict": not strict, "debug": None}}
+    flip_d = {"replace": {"strict": None, "debug": (debug + 1) % 3}}
+    flip_sd = {"replace": {"strict": not strict, "debug": (debug + 2) % 3}}
+    return [*([{"extend": e}] for e in DER_EXT), [flip_s], [flip_d],
+            [{"extend": [["int", "last"]]}, flip_sd], [flip_s, {"extend": [["int", "first"]]}],
+            [{"extend": [["int", "first"]]}, {"extend": [["int", "last"]]}]]
 
 
 def _enumerate(ctx, alphabet, max_len, name, dump_every=1, skip_at_max_len=()):
@@ -1121,6 +1617,56 @@ def _enumerate(ctx, alphabet, max_len, name, dump_every=1, skip_at_max_len=()):
     return True
 
 
+def _enumerate_small(ctx, alphabet, max_len, reqs, name):
+    """All recipes over ``alphabet`` of length 0..max_len x ``reqs`` x (load, dump); sharded by recipe index."""
+    i = 0
+    for n in range(max_len + 1):
+        for combo in itertools.product(alphabet, repeat=n):
+            i += 1
+            if i % ctx.nshards != ctx.shard:
+                continue
+            if ctx.out_of_time():
+                return False
+            recipe = [list(x) for x in combo]
+            for req in reqs:
+                if req != "List[Node]" and any(x[0] == "list" for x in recipe):
+                    continue  # never matches there; the recipe without it is enumerated anyway
+                for d in ("load", "dump"):
+                    case = {"dir": d, "req": req, "recipe": recipe, "logged": True,
+                            "strict": bool(i & 1), "debug": i % 3}
+                    if excluded_wrapped(case, name):
+                        ctx.count("excluded_known")
+                        continue
+                    ctx.label(f"src:{name}")
+                    check_case(ctx, case)
+    return True
+
+
+def _enumerate_derived(ctx, thorough):
+    """original recipe x extend / replace sequence x what was done with the original before x how the derived retort
+    is used x request x direction"""
+    i = 0
+    for base in DER_BASE:
+        for k in range(len(der_ops(True, 0))):
+            for wrap in DER_WRAPS:
+                for pre in DER_PRE:
+                    i += 1
+                    if i % ctx.nshards != ctx.shard:
+                        continue
+                    if ctx.out_of_time():
+                        return False
+                    strict, debug = bool(i & 1), i % 3
+                    for req in DER_REQS + (REC_REQS if thorough else ()):
+                        for d in ("load", "dump"):
+                            case = {"dir": d, "req": req, "recipe": base, "logged": bool((i // 2 + len(req)) % 4),
+                                    "strict": strict, "debug": debug, "ops": der_ops(strict, debug)[k],
+                                    "derived": {"pre": pre, "wrap": wrap, "strict": bool(i & 2),
+                                                "debug": (i // 3) % 3}}
+                            ctx.label("src:exhaustive_derived")
+                            check_case(ctx, case)
+    return True
+
+
 def explore(ctx: runner.Ctx):
     thorough = ctx.tier == "thorough"
     excl = (f" except a 15/16 share of the length>=3 cases affected by the open finding {KNOWN_ID} "
@@ -1143,21 +1689,47 @@ def explore(ctx: runner.Ctx):
                             + ("load (dump: every 4th recipe only, not exhaustive)" if thorough else "(load, dump)")
                             + note + excl)
 
+    n_rec = 3 if thorough else 2
+    if _enumerate_small(ctx, REC, n_rec, REC_REQS, "exhaustive_recursive"):
+        ctx.mark_exhaustive(f"self-referential models: all recipes of length 0..{n_rec} over {len(REC_PREDS)} "
+                            f"predicates x {len(KINDS)} handler kinds = {len(REC)} entries x requests {REC_REQS} x "
+                            f"(load, dump), probe data {NODE_LEVELS} levels deep")
+    n_wr = 3 if thorough else 2
+    if _enumerate_small(ctx, WR, n_wr, ("MW",), "exhaustive_wrapped_fields"):
+        ctx.mark_exhaustive(f"fields typed NewType / Annotated: all recipes of length 0..{n_wr} over {len(WR_PREDS)} "
+                            f"predicates x {len(KINDS)} handler kinds = {len(WR)} entries x request MW x (load, dump)"
+                            + (f" except a 7/8 share of the cases that run into the open findings {KNOWN_TWICE_ID} / "
+                               f"{KNOWN_DEFER_ID} (counted as excluded_known)" if EXCLUDE_TWICE or EXCLUDE_DEFER
+                               else ""))
+    if _enumerate_derived(ctx, thorough):
+        ctx.mark_exhaustive(f"derived retorts: {len(DER_BASE)} original recipes x {len(der_ops(True, 0))} extend / "
+                            f"replace sequences x final use {DER_WRAPS} x earlier use of the original {DER_PRE} x "
+                            f"requests {DER_REQS + (REC_REQS if thorough else ())} x (load, dump)")
+
     def sampled(case):
         ctx.label("src:sampled")
         check_case(ctx, case)
-    ctx.given(st_case(), sampled, ctx.budget(12000, 200000))
+    ctx.given(st_case(), sampled, ctx.budget(14000, 240000))
 
 
 KNOWN_OPEN = known_open()
 EXCLUDE_KNOWN = exclusion_active()
+# the two open findings on fields typed NewType / Annotated: avoided by construction only while their entry is open
+EXCLUDE_TWICE = known_open(KNOWN_TWICE_ID) and os.environ.get("VERIF_C09_NO_EXCLUDE") != "1"
+EXCLUDE_DEFER = known_open(KNOWN_DEFER_ID) and os.environ.get("VERIF_C09_NO_EXCLUDE") != "1"
 
 RULE = ("case = (direction, request type, instance recipe of (predicate, handler kind) entries [+ extend()/replace() "
-        "operations, class-level recipes (chain / diamond), retorts nested in the recipe], logged or raw providers, "
-        "strict_coercion, debug_trail); short recipes enumerated exhaustively, long ones sampled. Non-trivial = some "
-        "location reached by the request (top level or sub-request) is matched by >= 2 recipe entries, or its first "
-        "match declines / passes through / chains, or the request type cannot be normalised and the recipe holds an "
-        "exact-class entry (which must never serve it); distinct by the whole case.")
+        "operations, class-level recipes (chain / diamond), retorts nested in the recipe, 'derived': the original "
+        "retort is placed in a recipe / used first and the retort derived from it by the operations is then placed in "
+        "a fresh holder retort or used directly], logged or raw providers, strict_coercion, debug_trail); request "
+        "types: int, a model, List, Optional, types that cannot be normalised, a self-referential model (and a list "
+        "of it; probe data 3 levels deep), a model with NewType / Annotated fields; short recipes enumerated "
+        "exhaustively, long ones sampled. Non-trivial = some location reached by the request (top level or "
+        "sub-request) is matched by >= 2 recipe entries, or its first match declines / passes through / chains, or "
+        "the request type cannot be normalised and the recipe holds an exact-class entry (which must never serve it), "
+        "or a chaining entry is consulted at the location where a type cycle comes round, or (derived) serving from "
+        "the original retort would give a different reference outcome than serving from the derived one; distinct by "
+        "the whole case.")
 
 if __name__ == "__main__":
     raise SystemExit(runner.main(
@@ -1177,5 +1749,19 @@ if __name__ == "__main__":
             "reference consultation sequence are accepted for sub-requests (counted); the top-level request must be "
             "consulted exactly as the reference says",
             "terminal CannotProvide raised by user providers and non-located request classes are not generated",
+            "self-referential request types: every predicate used with them looks at the last two locations only, so "
+            "the reading 'each location of the (infinite) location tree is resolved by first match' (the reference, "
+            "unrolled as deep as the 3-level probe data go) and adaptix's reading 'the inner request is answered by "
+            "the request in progress' cannot differ in the VALUE, which is asserted at every nesting level; whether a "
+            "request of its own is sent for a location at or below the point where the cycle comes round (a location "
+            "whose stack holds a type twice) is not specified: such a location may be missing from the consultation "
+            "log (adaptix answers it through the recursion stub without consulting anybody), a request that WAS sent "
+            "for it must show exactly the reference's consultation sequence",
+            "NewType / Annotated field types are transparent for the reference (docs: 'All NewType's are treated as "
+            "origin types ... also applies to user-defined providers', 'Annotated ... processed the same as wrapped "
+            "types'): the field location is resolved once and int predicates match it; the real sends for the wrapper "
+            "level and for the inner type of one field are read as one resolution (sequences concatenated); a negated "
+            "type predicate (~P[int]) on such a field is unspecified (not evaluated); the predicate NewType itself is "
+            "not generated",
         ],
     ))
